@@ -17,5 +17,6 @@ Separate Extraction
   Mini.Rewrites.use_all_sites Mini.Rewrites.conc_ids Mini.Rewrites.use_occs_of_phrase Mini.Rewrites.idents_program
   Mini.Rewrites.block_ids Mini.Rewrites.lit_idents Mini.Faults.sub_idents Mini.Faults.oc_conc
   Mini.Faults.sub_candidates Mini.Faults.call_candidates Mini.Faults.agg_candidates
-  Mini.Sem.head_nid
+  Mini.Sem.head_nid Mini.Faults.choice_candidates Mini.Faults.lit_ids Mini.Faults.obj_idents Mini.Faults.fresh_nid
+  Mini.Faults.agg_variants Mini.Faults.is_condition
   Mini.Syntax.nids_dunit.
